@@ -359,3 +359,13 @@ def run(ctx, eng):
     ctx.assume('equality of advertised and enforced windows over whole '
                'histories follows by induction from these clauses; the '
                'induction is not mechanised')
+    cm.include(ctx, eng, 'C11',
+               lambda o: o.rule in ('FLOW.queue', 'FLOW.ack-source') or (
+                   o.rule == 'COH.apply-map' and
+                   o.desc.startswith('local INITIAL_WINDOW_SIZE ')),
+               'the advertised initial window is the acknowledged one: the '
+               'settings queue hands out one pending value per ACK, in order')
+    cm.include(ctx, eng, 'C05', {'ARITH.increment', 'FLOW.process',
+                                 'FLOW.refill'},
+               'the increments the library emits itself are the amounts it '
+               'adds to its own view of the window')
